@@ -133,6 +133,11 @@ fn truncation_body(c: &Case, rec: &mut Rec) -> CaseResult {
         return Ok(());
     }
     let (limit, place) = resolve_limit(&c.limit, &full);
+    truncation_oracle(&orig, &full, limit, place, rec)
+}
+
+/// the C03 codec oracle for one (message, limit)
+pub fn truncation_oracle(orig: &Message, full: &[u8], limit: usize, place: &str, rec: &mut Rec) -> CaseResult {
     let mut buf = Vec::with_capacity(512);
     let res = {
         let mut enc = BinEncoder::new(&mut buf);
@@ -264,7 +269,34 @@ fn truncation_body(c: &Case, rec: &mut Rec) -> CaseResult {
     Ok(())
 }
 
+/// fuzz entry: first two octets = limit, the rest a packet; accepted packets are re-encoded under the limit
+pub fn fuzz_one(data: &[u8]) -> CaseResult {
+    if data.len() < 14 {
+        return Ok(());
+    }
+    let limit = (u16::from_le_bytes([data[0], data[1]]) as usize).max(12);
+    let Ok(orig) = Message::from_vec(&data[2..]) else { return Ok(()) };
+    let Ok(full) = orig.to_vec() else { return Ok(()) };
+    let Ok(full_msg) = Message::from_vec(&full) else { return Ok(()) };
+    // the unlimited encoding must hold everything (otherwise the message is over 64K: out of domain)
+    if full_msg.answers.len() != orig.answers.len() || full_msg.authorities.len() != orig.authorities.len() || full_msg.additionals.len() != orig.additionals.len() {
+        return Ok(());
+    }
+    let mut rec = Rec::default();
+    // limits relative to the full length are the interesting ones: fold the raw value around it
+    let limit = if limit > full.len() + 8 { 12 + limit % (full.len() + 8 - 11).max(1) } else { limit };
+    truncation_oracle(&full_msg, &full, limit, "fuzz", &mut rec)
+}
+
 pub fn check() -> Option<Check> {
+    let fuzz: Box<dyn crate::core::Sub> = Box::new(crate::core::FuzzSub {
+        name: "fz_truncate",
+        target: "fz_truncate",
+        runs_thorough: 4_000_000,
+        max_len: 8_192,
+        oracle: fuzz_one,
+        seeds: Vec::new,
+    });
     let trunc = prop(
         "codec_truncation",
         60_000,
@@ -291,7 +323,7 @@ pub fn check() -> Option<Check> {
         },
         truncation_body,
     );
-    let mut subs = vec![trunc, trunc_large];
+    let mut subs = vec![trunc, trunc_large, fuzz];
     subs.extend(crate::checks::c03_server::subs());
     Some(Check {
         id: "C03",
